@@ -62,6 +62,14 @@ def toDs {β} (d : Desc) (f : List Nat → List β) (dfl : β) (nanLike : β →
   | .error e => .error e
   | .ok runs => .ok (resultsToDs d s (runs.map (·.nested)))
 
+/-- label a list of results given in enumeration order (one list of outputs per setting): what both a direct run
+and a reap do after they have obtained their linear results -/
+def labelLinear {β} (d : Desc) (dfl : β) (nanLike : β → β) (s : Sweep) (results : List (List β)) : DS β :=
+  resultsToDs d s ((List.range d.outputs.length).map fun j =>
+    match results with
+    | r0 :: _ => processNested s (results.map (·.getD j dfl)) (nanLike (r0.getD j dfl))
+    | [] => processNested s [] (nanLike dfl))
+
 structure Row (β : Type) where
   /-- swept argument values (ranks), in `fn_args` order -/
   loc : List Nat
